@@ -17,7 +17,7 @@ CLAIMED = {
    text="Theorems: clamping (continuous over Q and over any decidable total order, discrete over Z) lands in range, is the identity "
         "in range and returns the nearest in-domain value; set_des_var_value never stores an out-of-domain value, also on LINKED "
         "nodes; a PrimFloat witness refutes the unclamped linked formula of the code as found (fixed by d6bfdac). "
-        "correct_value / set_des_var_value are compared with the extracted model on exact rationals.",
+        "correct_value / set_des_var_value are compared with the extracted model on exact rationals. A second batch decodes graphs with 1-3 design-variable nodes through GraphProcessor (both encoders, entries inside/on/outside the bounds, negative and non-integer indices) and submits instance + stored values to decode_witness.",
    note=BASE + "Floats enter the model as exact rationals; the relative-position formula is compared exactly only where double "
         "arithmetic is exact, otherwise the model decides domain membership of what the code stored. NaN is outside the quantifier. "
         "PrimFloat primitives (kernel) appear under the refutation witness.",
@@ -28,7 +28,7 @@ CLAIMED = {
         "with no active choice yields exactly the closure (all start nodes, no choice node); the result is independent of the "
         "order; enum_adm enumerates exactly the admissible assignments, each once; every admissible assignment is reachable "
         "by a legal run. The graph API is driven along every admissible assignment in several orders and along every path it "
-        "offers, and compared with the proved enumeration.",
+        "offers, and compared with the proved enumeration. Totality: on a graph whose start nodes and edge targets are declared nodes the fuelled closure and enum_adm always return (C02_closure_total, C02_enumeration_total).",
    note=BASE + "Intermediate graphs are not compared. Known findings K1, K7, K8 (see known_findings.json) are reported as KNOWN-FINDING by generator guards.",
    technique="Coq theorems about an extracted Gallina model + differential correspondence with the implementation",
    design="§6 C02"),
@@ -44,21 +44,21 @@ CLAIMED = {
    text="Theorems: whatever decode_witness accepts is an admissible assignment whose derivation closure is exactly the returned "
         "instance (no choice node, nothing missing), with in-domain design-variable values; the admissible set is empty iff every "
         "assignment conflicts. Every decode of both selection-choice encoders over the declared space is submitted to the "
-        "extracted decode_witness; errors are allowed only when the model's enumeration is empty.",
+        "extracted decode_witness; errors are allowed only when the model's enumeration is empty. A second batch runs graphs with 1-2 connection choices through GraphProcessor (enumerated rows, random vectors with both encoders, a fix/free phase) against the model's architectures (admissible assignment x valid connection set per choice).",
    note=BASE + "Which valid vector the corrector picks is abstracted (relation, not function). E is read from all_des_vars. Connection choices are not in this check. Known findings K7, K8, K9 by generator guards.",
    technique="Coq theorems about an extracted Gallina model + differential correspondence with the implementation", design="§6 C01"),
  'C03': dict(
    text="Theorems: an accepted decode result describes its instance — each active selection variable holds the index of the option "
         "taken, design-variable nodes carry the reported clamped values, values are in range; the instance depends only on the set "
         "of pairs. Checked per decode through decode_witness(Full), plus idempotence and one-vector-one-architecture on the "
-        "implementation's outputs with the model's witness as architecture identity.",
+        "implementation's outputs with the model's witness as architecture identity. A second batch (graphs with 1-2 connection choices through GraphProcessor) checks that rows decode to themselves, corrected vectors are fixed points and a second decode on the same processor gives the same architecture.",
    note=BASE + "Known findings K2, K7, K8, K9 by generator guards.",
    technique="Coq theorems about an extracted Gallina model + differential correspondence with the implementation", design="§6 C03"),
  'C04': dict(
    text="Theorems: rows_of lists exactly the vectors of admissible assignments with in-domain design-variable values; every "
         "admissible architecture is listed; assignments are enumerated once each; n_valid is the number of rows. "
         "get_all_discrete_x, get_n_valid_designs, get_n_design_space, imputation ratio and statistics of the complete encoder are "
-        "compared with the extracted rows_of / n_declared.",
+        "compared with the extracted rows_of / n_declared. Under a faithful encoding (enc_ok, decided per case) no vector is listed twice (C04_rows_once).",
    note=BASE + "A taken choice may be listed inactive (auto-resolved): rows are matched one-to-one to architectures with that relaxation. Duplicate-freeness of the product rows is checked by the model's enc_ok per case, not yet a theorem. Known findings K2, K7, K8, K9.",
    technique="Coq theorems about an extracted Gallina model + differential correspondence with the implementation", design="§6 C04"),
  'C07': dict(
@@ -71,7 +71,7 @@ CLAIMED = {
  'C14': dict(
    text="Theorems: accepted decodes are admissible architectures; the reference enumeration is exactly the admissible assignments; "
         "every admissible assignment is reachable by a legal greedy run. The fast encoder is decoded over its whole declared space "
-        "and the image compared with enum_adm; corrected vectors must be fixed points.",
+        "and the image compared with enum_adm; corrected vectors must be fixed points. The order in which the fast encoder tries vectors is modelled (Neighborhood.v): exactly the space left by the fixed variables, every vector once, the requested one first; the search returns a feasible vector whenever that space holds one; FastHierarchyAnalyzer._iter_neighborhood is compared with the extracted neighborhood.",
    note=BASE + "F5 (zero selection choices) fixed by 305cac2. Known findings K7, K8.",
    technique="Coq theorems about an extracted Gallina model + differential correspondence with the implementation", design="§6 C14"),
  'C17': dict(
